@@ -229,6 +229,20 @@ class _Sym:
         except z3.Z3Exception:
             return z3.ForAll([k], body)
 
+    def in_set(self, st, k):
+        st, k = wrap(st), wrap(k)
+        return z3.Select(st.ty.mem(st.t), k.t)
+
+    def exists_in_set(self, st, fn: Callable):
+        st = wrap(st)
+        k = z3.Const(fresh_name("sk"), st.ty.key.sort())
+        return z3.Exists([k], z3.And(z3.Select(st.ty.mem(st.t), k), fn(unwrap(Val(st.ty.key, k)))))
+
+    def contains(self, seq, x):
+        seq, x = wrap(seq), wrap(x)
+        i = z3.Int(fresh_name("ci"))
+        return z3.Exists([i], z3.And(0 <= i, i < seq.ty.len(seq.t), z3.Select(seq.ty.arr(seq.t), i) == x.t))
+
     def exists_in_dict(self, d, fn: Callable):
         d = wrap(d)
         k = z3.Const(fresh_name("ek"), d.ty.key.sort())
@@ -325,6 +339,15 @@ class _Conc:
 
     def forall_key(self, ty, fn, pattern=None, domain=()):
         return all(bool(fn(k)) for k in domain)
+
+    def in_set(self, st, k):
+        return k in st
+
+    def exists_in_set(self, st, fn):
+        return any(bool(fn(k)) for k in st)
+
+    def contains(self, seq, x):
+        return x in seq
 
     def exists_in_dict(self, d, fn):
         return any(bool(fn(k)) for k in d)
